@@ -368,6 +368,10 @@ func (dc *DataContext) SetValue(Vars map[string]reflect.Value, variable string, 
 			return core.SetSingleValue(v, variable, newValue)
 		} else {
 			//in RuleEntity
+			//a local holds its own copy: a value read from an injected field or element must not keep following it
+			if newValue.IsValid() && newValue.CanAddr() && newValue.CanInterface() && newValue.Kind() != reflect.Interface {
+				newValue = reflect.ValueOf(newValue.Interface())
+			}
 			dc.lockVars.Lock()
 			Vars[variable] = newValue
 			dc.lockVars.Unlock()
